@@ -1,5 +1,6 @@
 import KrakenModel.Util.LTS
 import KrakenModel.Model.CAStoreMem
+import KrakenModel.Model.OriginBlob
 import KrakenModel.Proof.C01
 /-
   C01  Content-addressed stores never serve bytes that do not hash to their name.
@@ -160,6 +161,19 @@ theorem matching_write_served (s : State) (name : Name) (b : Bytes) (hv : validN
       exact ⟨f.data, by simp [hf]⟩
     · exact ⟨b, by simp [KV.get_put_self]⟩
 
+/-- **C01 (4)** The same at the level of the origin's HTTP API: for every history of internal-transfer and
+cluster uploads (start / patch / commit, in any interleaving of several uploads of the same or different
+digests), blob GETs that refresh from a storage backend delivering arbitrary streams, and metainfo
+overwrites, whatever the origin serves under a digest hashes to it (with size and metainfo as in (1)).
+Each HTTP operation is a composition of store operations (`Model.OriginBlob`). -/
+theorem origin_served (cfg : Cfg) (hs : cfg.skipVerify = false) (pl : Int) (ops : List OriginBlob.OOp) :
+    Served H crc (OriginBlob.run H crc cfg pl ops).cas := by
+  suffices h : ∀ (s : OriginBlob.State), GoodV H crc s.cas → GoodV H crc (ops.foldl (OriginBlob.step H crc) s).cas from
+    served_of_good (h _ ⟨hs, good_init cfg⟩).2
+  induction ops with
+  | nil => intro s hg; exact hg
+  | cons o ops ih => intro s hg; exact ih _ (origin_apply_good hg o)
+
 end
 
 /-! ### the precondition is necessary, and non-vacuity -/
@@ -191,4 +205,16 @@ example : (let s := run Ht crct { memEnabled := true, maxSize := 10 } [.writeBlo
 example : Write.mismatch Ht (init {}) nA (.writeBlob 2 [{ data := [7, 7] }] 1) := by
   intro a ha; simp at ha; subst ha; right; decide
 
+-- HTTP level: an internal transfer in two out-of-order chunks is served after the commit; a refresh whose
+-- first stream is corrupt is served from the retry; a corrupt-only refresh leaves nothing and is remembered
+def uploadTwoChunks : List OriginBlob.OOp :=
+  [.start .transfer nA "u", .patch .transfer nA "u" 1 [2], .patch .transfer nA "u" 0 [1], .commit .transfer nA "u"]
+example : (let s := OriginBlob.run Ht crct {} 1 uploadTwoChunks
+    (readable s.cas nA, (metainfo s.cas nA).map (·.sums))) = (some [1, 2], some [1, 2]) := by decide
+example : (let s := OriginBlob.run Ht crct { memEnabled := true, maxSize := 9 } 1 [.fetch nA (some 2) [{ data := [3] }, { data := [1, 2] }]]
+    (readable s.cas nA, inMem s.cas nA)) = (some [1, 2], false) := by decide
+example : (let s := OriginBlob.run Ht crct { memEnabled := true, maxSize := 9 } 1 [.fetch nA (some 2) [{ data := [3] }, { data := [3] }]]
+    (readable s.cas nA, s.failed)) = (none, [nA]) := by decide
+
 end KrakenModel.Spec.C01
+
